@@ -141,7 +141,9 @@ function l_setfuncs(t, up) rawset(t, "f1", function() return up end); rawset(t, 
 function l_to(v)
   local t = type(v)
   local conv = (t == "number" or t == "string")
-  return (not not v), conv and tonumber(v) or 0, conv and tostring(v) or "", t
+  -- a string converts to itself (lua_tostring consults no metamethod: tostring(v) would call a __tostring placed on the
+  -- string metatable by the strmeta op)
+  return (not not v), conv and tonumber(v) or 0, (t == "string" and v) or (t == "number" and tostring(v)) or "", t
 end
 GX = 5
 function l_get_GX() return GX end
